@@ -1,8 +1,8 @@
 SPECIFICATION Spec
 CONSTANTS
-  MaxCount = 16
+  MaxCount = 6
   HashPeriods = 2
-  FviExcl = FALSE
+  FviExcl = TRUE
   SwapDirs = FALSE
 INVARIANTS ArithOK ReportedOK FviOK InRange ClientIsS HashConsistent MapOK Unique
 CHECK_DEADLOCK FALSE
